@@ -960,8 +960,16 @@ pub const OP_DISPLAY: usize = 10;
 pub static mut IP_CALLS: [usize; 11] = [0; 11];
 pub static mut IP_SELF: usize = 0;
 pub static mut IP_OTHER: usize = 0;
-pub static mut IP_BOOL: bool = false;
-pub static mut IP_ORD: u8 = 0; // 0 None, 1 Less, 2 Equal, 3 Greater
+// The comparison answers of `Ip` are SYMBOLIC BUT LAWFUL: the harness fixes a relation between the
+// two payloads at addresses IP_A and IP_B (IP_ORD: 0 unordered, 1 A<B, 2 A==B, 3 A>B); every
+// operator answers according to that one relation (and its converse for swapped arguments). A handle
+// may therefore implement `ne` as `!eq`, `le` through `partial_cmp`, ... without changing any
+// answer — only a wrong answer, a comparison of the wrong operands, or no consultation of the
+// values at all is a violation of C14.
+pub static mut IP_A: usize = 0;
+pub static mut IP_B: usize = 0;
+pub static mut IP_ORD: u8 = 0;
+pub static mut IP_FOREIGN: bool = false; // an operator was applied to operands other than (A,B)/(B,A)/(X,X)
 pub static mut IP_FMT_OK: bool = true;
 pub fn ip_total() -> usize {
     unsafe {
@@ -978,6 +986,19 @@ pub fn ip_only(op: usize) -> bool {
 pub fn ip_args(s: usize, o: usize) -> bool {
     unsafe { IP_SELF == s && IP_OTHER == o }
 }
+/// the values were consulted (at least one comparison operator ran) and only on the two payloads
+pub fn ip_consulted() -> bool {
+    unsafe { ip_total() >= 1 && !IP_FOREIGN }
+}
+pub fn ip_setup(a: usize, b: usize) {
+    unsafe {
+        IP_A = a;
+        IP_B = b;
+        IP_ORD = kani::any();
+        kani::assume(IP_ORD <= 3);
+        IP_FMT_OK = kani::any();
+    }
+}
 fn ip_rec<A: ?Sized, B: ?Sized>(op: usize, s: &A, o: &B) {
     unsafe {
         IP_CALLS[op] += 1;
@@ -985,13 +1006,33 @@ fn ip_rec<A: ?Sized, B: ?Sized>(op: usize, s: &A, o: &B) {
         IP_OTHER = o as *const B as *const u8 as usize;
     }
 }
+fn ord_of(code: u8) -> Option<core::cmp::Ordering> {
+    match code {
+        1 => Some(core::cmp::Ordering::Less),
+        2 => Some(core::cmp::Ordering::Equal),
+        3 => Some(core::cmp::Ordering::Greater),
+        _ => None,
+    }
+}
+/// the relation between A and B the harness fixed (what comparing the VALUES answers)
 pub fn ip_ord() -> Option<core::cmp::Ordering> {
+    unsafe { ord_of(IP_ORD) }
+}
+fn ip_rel(s: &Ip, o: &Ip) -> Option<core::cmp::Ordering> {
     unsafe {
-        match IP_ORD {
-            1 => Some(core::cmp::Ordering::Less),
-            2 => Some(core::cmp::Ordering::Equal),
-            3 => Some(core::cmp::Ordering::Greater),
-            _ => None,
+        let (sa, oa) = (s as *const Ip as usize, o as *const Ip as usize);
+        if sa == IP_A && oa == IP_B {
+            ord_of(IP_ORD)
+        } else if sa == IP_B && oa == IP_A {
+            match ord_of(IP_ORD) {
+                Some(x) => Some(x.reverse()),
+                None => None,
+            }
+        } else if sa == oa {
+            Some(core::cmp::Ordering::Equal)
+        } else {
+            IP_FOREIGN = true;
+            None
         }
     }
 }
@@ -999,42 +1040,42 @@ pub struct Ip(pub u8);
 impl PartialEq for Ip {
     fn eq(&self, o: &Ip) -> bool {
         ip_rec(OP_EQ, self, o);
-        unsafe { IP_BOOL }
+        ip_rel(self, o) == Some(core::cmp::Ordering::Equal)
     }
     fn ne(&self, o: &Ip) -> bool {
         ip_rec(OP_NE, self, o);
-        unsafe { IP_BOOL }
+        ip_rel(self, o) != Some(core::cmp::Ordering::Equal)
     }
 }
 impl Eq for Ip {}
 impl PartialOrd for Ip {
     fn partial_cmp(&self, o: &Ip) -> Option<core::cmp::Ordering> {
         ip_rec(OP_PCMP, self, o);
-        ip_ord()
+        ip_rel(self, o)
     }
     fn lt(&self, o: &Ip) -> bool {
         ip_rec(OP_LT, self, o);
-        unsafe { IP_BOOL }
+        ip_rel(self, o) == Some(core::cmp::Ordering::Less)
     }
     fn le(&self, o: &Ip) -> bool {
         ip_rec(OP_LE, self, o);
-        unsafe { IP_BOOL }
+        matches!(ip_rel(self, o), Some(core::cmp::Ordering::Less) | Some(core::cmp::Ordering::Equal))
     }
     fn gt(&self, o: &Ip) -> bool {
         ip_rec(OP_GT, self, o);
-        unsafe { IP_BOOL }
+        ip_rel(self, o) == Some(core::cmp::Ordering::Greater)
     }
     fn ge(&self, o: &Ip) -> bool {
         ip_rec(OP_GE, self, o);
-        unsafe { IP_BOOL }
+        matches!(ip_rel(self, o), Some(core::cmp::Ordering::Greater) | Some(core::cmp::Ordering::Equal))
     }
 }
 impl Ord for Ip {
     fn cmp(&self, o: &Ip) -> core::cmp::Ordering {
         ip_rec(OP_CMP, self, o);
-        match ip_ord() {
+        match ip_rel(self, o) {
             Some(x) => x,
-            None => core::cmp::Ordering::Equal,
+            None => core::cmp::Ordering::Less, // total orders have no unordered pairs: harnesses for cmp assume IP_ORD != 0
         }
     }
 }
